@@ -174,20 +174,22 @@ func (r *Runtime) newDataView(args []Value, newTarget *Object) *Object {
 	}
 	var byteOffset, byteLen int
 	if len(args) > 1 {
-		offsetArg := nilSafe(args[1])
-		byteOffset = r.toIndex(offsetArg)
-		buffer.ensureNotDetached(true)
-		if byteOffset > len(buffer.data) {
-			panic(r.newErrorf(r.getRangeError(), "Start offset %s is outside the bounds of the buffer", offsetArg.String()))
-		}
+		byteOffset = r.toIndex(nilSafe(args[1]))
+	}
+	buffer.ensureNotDetached(true)
+	// the length observed before byteLength is coerced: if that coercion detaches the buffer the
+	// range check below still uses it and the detached check after it reports the TypeError
+	bufferByteLength := len(buffer.data)
+	if byteOffset > bufferByteLength {
+		panic(r.newErrorf(r.getRangeError(), "Start offset %d is outside the bounds of the buffer", byteOffset))
 	}
 	if len(args) > 2 && args[2] != nil && args[2] != _undefined {
 		byteLen = r.toIndex(args[2])
-		if byteOffset+byteLen > len(buffer.data) {
+		if byteOffset+byteLen > bufferByteLength {
 			panic(r.newErrorf(r.getRangeError(), "Invalid DataView length %d", byteLen))
 		}
 	} else {
-		byteLen = len(buffer.data) - byteOffset
+		byteLen = bufferByteLength - byteOffset
 	}
 	proto := r.getPrototypeFromCtor(newTarget, r.getDataView(), r.getDataViewPrototype())
 	buffer.ensureNotDetached(true)
